@@ -1,6 +1,6 @@
 (** Non-vacuity for C12: readers satisfying the hypotheses, and concrete runs of the model. *)
 From Coq Require Import NArith List Lia.
-From FF Require Import Lib.Word Gen.Consts_device_acpi_aml Aml.Stream Aml.Lex Aml.LexProofs Aml.Tree Aml.TreeSpec Aml.Parser Aml.ParserProofs Aml.ParserProofsTop Aml.ParserTotalBase Aml.ParserTotalFirst Aml.ParserTotalConn Aml.ParserTotalTop Aml.ParserTotalNonNamed Aml.ParserTotalCalls Aml.ParserTotalReloc Aml.ParserTotalMerge Aml.ParserTotalResolve Aml.ParserTotalLex Aml.ParserTotalTree Aml.ParserTotalDefer Aml.ParserTotalDeferW Aml.ParserTotalDeferV Aml.ParserTotalTyped Aml.ParserTotalShape Aml.ParserTotalChain.
+From FF Require Import Lib.Word Gen.Consts_device_acpi_aml Aml.Stream Aml.Lex Aml.LexProofs Aml.Tree Aml.TreeSpec Aml.Parser Aml.ParserProofs Aml.ParserProofsTop Aml.ParserTotalBase Aml.ParserTotalFirst Aml.ParserTotalConn Aml.ParserTotalTop Aml.ParserTotalNonNamed Aml.ParserTotalCalls Aml.ParserTotalReloc Aml.ParserTotalMerge Aml.ParserTotalResolve Aml.ParserTotalLex Aml.ParserTotalTree Aml.ParserTotalDefer Aml.ParserTotalDeferW Aml.ParserTotalDeferV Aml.ParserTotalTyped Aml.ParserTotalShape Aml.ParserTotalChain Aml.ParserTotalConn2 Aml.ParserTotalPass2.
 Import ListNotations.
 Local Open Scope N_scope.
 
@@ -298,3 +298,15 @@ Example C12_rest_nonvacuous :
     lp s + lp s * (8 * r_len (p_r s) + 3) + 4 <= InvalidIndex /\
     match parse_rest 10 s with Ok (b, s') => b = true /\ lp s' = 4 | _ => False end.
 Proof. exact rest_hyps_example. Qed.
+
+(** the hypotheses of C12_parse_total_partial_nopanic_rest2 are satisfiable by the same state; passes 2-6 return ok *)
+Example C12_rest2_nonvacuous :
+  exists (s : pstate) (g : ghost),
+    R (p_tree s) g /\
+    (forall i o, TreeSpec.get (p_tree s) i = Some o -> o_opcode o <> opFreed -> opInfo (o_infoIndex o) <> None) /\
+    rok (p_r s) /\ p_scopeStack s = [] /\ Inv (p_tables s) s /\ SH s g /\
+    (forall i o, TreeSpec.get (p_tree s) i = Some o -> o_opcode o <> opFreed -> o_opcode o = aml_pOpIntNamePathOrMethodCall ->
+                 exists tbl sl, o_value o = Some (VBytes tbl sl)) /\
+    lp s + lp s * (8 * r_len (p_r s) + 3) + 4 <= InvalidIndex /\
+    match parse_rest2 10 s with Ok (b, s') => b = true /\ lp s' = 4 | _ => False end.
+Proof. exact rest2_hyps_example. Qed.
